@@ -34,6 +34,14 @@ Mx(m)     == U16B(m.priority) \o Name(m.exchange)
 RECURSIVE Chunks(_)
 Chunks(t) == IF Len(t) <= 255 THEN <<Len(t)>> \o t ELSE <<255>> \o SubSeq(t, 1, 255) \o Chunks(SubSeq(t, 256, Len(t)))
 Txt(m)    == Chunks(m.text)
+\* any other split of the same text into <character-string>s is the same TXT value (RFC 1035 3.3.14; RFC 7208 3.3 and
+\* RFC 6376 3.6.2.2: the strings are concatenated without spaces); lens = the lengths of the strings, in order
+RECURSIVE SplitBy(_, _)
+SplitBy(t, lens) == IF lens = <<>> THEN <<>>
+                    ELSE <<Head(lens)>> \o SubSeq(t, 1, Head(lens)) \o SplitBy(SubSeq(t, Head(lens) + 1, Len(t)), Tail(lens))
+RECURSIVE SumL(_)
+SumL(ls) == IF ls = <<>> THEN 0 ELSE Head(ls) + SumL(Tail(ls))
+SplitOk(t, lens) == SumL(lens) = Len(t) /\ lens # <<>> /\ \A i \in 1..Len(lens) : lens[i] >= 0 /\ lens[i] <= 255
 
 \* combinations the RFCs define (the parse-back clause is claimed for these; the layout clause always)
 KeyConformant(alg, k) ==
